@@ -17,6 +17,9 @@ func ProfileFor(prop, tier string, r *Rng) *Profile {
 	if prop == "C02" || prop == "C04" || prop == "C06" {
 		p.W[KBigBatch] = 0.4
 	}
+	if prop != "C16" {
+		p.Echo = 0.05
+	}
 	switch prop {
 	case "C03", "C04", "C05", "C15", "C12":
 		p.Scenarios = 0.03
@@ -90,6 +93,7 @@ func ProfileFor(prop, tier string, r *Rng) *Profile {
 		scale(8, KReset)
 		scale(3, KShrink, KSetRel)
 		p.Scenarios = 0.02
+		p.Echo = 0.35
 		scale(2, KRegister, KNewObserver, KResource)
 		p.NoFixedRels = true
 	case "C17":
